@@ -57,6 +57,14 @@ def _case(draw, big):
                   st.sampled_from([pd_pref, pd_pref, pd_pref, None, "Lorentzian", "Gaussian"])),
         st.builds(lambda r, L: {"op": "sv", "psi": r, "L": L}, st.integers(0, 1), st.sampled_from([2, 4])),
         st.builds(lambda r: {"op": "pop", "p": r}, st.integers(0, 1)),
+        # propagation matrix of the population propagator on a sub-axis, optionally with corrections
+        st.builds(lambda c: {"op": "popmat", "corr": c}, st.sampled_from([None, 0, 0])),
+        # a density-matrix propagation that is refused (unknown method) while a refinement argument is given
+        st.builds(lambda s, r, nref: {"op": "rdm_refused", "slot": s, "rho": r, "nref": nref},
+                  st.sampled_from([0, 0, 1, 2]), st.integers(0, 1), st.sampled_from([2, 5])),
+        # read-only looks at the Hamiltonian made while other energy units are current
+        st.builds(lambda w, u: {"op": "look", "what": w, "units": u},
+                  st.sampled_from(["rwa_data", "rwa_skeleton", "data"]), st.sampled_from(["1/cm", "eV", "THz"])),
         st.builds(lambda d, r: {"op": "heom", "depth": d, "rho": r}, st.integers(1, 2), st.integers(0, 1)),
         st.builds(lambda s, d: {"op": "eso", "slot": s, "dense": d}, st.integers(0, 1), st.sampled_from([1, 2])),
         st.just({"op": "elf"}),
@@ -104,6 +112,7 @@ class Pool(object):
         self.props = {}            # slot key -> [propagator, last explicitly set Nref]
         self.svprop = None
         self.popprop = None
+        self.rates = None          # rate matrix handed to the population propagator
         self.hier = {}             # depth -> (hierarchy, propagator)
 
     def fingerprint(self):
@@ -134,6 +143,8 @@ class Pool(object):
         for s, (RT, hret, key) in self.slots.items():
             fp["tensor%d" % s] = _tensor_numbers(RT)
             fp["tensor%d.ham" % s] = _fp_array(hret._data)
+        if self.rates is not None:
+            fp["rates"] = _fp_array(self.rates.data)
         for d, (hy, pr) in self.hier.items():
             fp["hier%d" % d] = numpy.concatenate([numpy.asarray(hy.hinds, dtype=float).ravel(),
                                                   numpy.asarray(hy.nm1, dtype=float).ravel(),
@@ -276,11 +287,45 @@ def check_case(case, ctx):
                     pool.svprop = StateVectorPropagator(pool.ta, pool.ham)
                 key = ("sv", op["psi"], op["L"])
                 return numpy.array(pool.svprop.propagate(pool.psis[op["psi"]], L=op["L"]).data)
-            if kind == "pop":
+            if kind in ("pop", "popmat"):
                 if pool.popprop is None:
-                    pool.popprop = PopulationPropagator(pool.ta, pool.agg.get_RedfieldRateMatrix())
-                key = ("pop", op["p"])
-                return numpy.array(pool.popprop.propagate(pool.p0[op["p"]]))
+                    # (a RateMatrix object: get_PropagationMatrix needs an array-like rate matrix)
+                    from quantarhei.qm.liouvillespace.rates.ratematrix import RateMatrix
+                    pool.rates = RateMatrix(data=numpy.array(pool.agg.get_RedfieldRateMatrix().data, dtype=numpy.float64))
+                    pool.popprop = PopulationPropagator(pool.ta, pool.rates)
+                if kind == "pop":
+                    key = ("pop", op["p"])
+                    return numpy.array(pool.popprop.propagate(pool.p0[op["p"]]))
+                sub = qr.TimeAxis(pool.ta.start, max(2, (pool.ta.length - 1) // 5), 5 * pool.ta.step)
+                key = ("popmat", op["corr"])
+                where = "popmat" + ("/corrections" if op["corr"] is not None else "")
+                if op["corr"] is None:
+                    return numpy.array(pool.popprop.get_PropagationMatrix(sub))
+                out = pool.popprop.get_PropagationMatrix(sub, corrections=op["corr"])
+                return numpy.concatenate([numpy.asarray(x, dtype=float).ravel() for x in (out if isinstance(out, (tuple, list)) else [out])])
+            if kind == "rdm_refused":
+                slot = op["slot"] if op["slot"] in pool.slots else None
+                pslot = (slot, None)
+                if pslot not in pool.props:
+                    key = None
+                    return None
+                prop = pool.props[pslot][0]
+                where = "rdm/refused-call"
+                try:
+                    prop.propagate(pool.rho_objs[op["rho"]], method="no-such-method", Nref=op["nref"])
+                except Exception:
+                    pass
+                key = None
+                return None
+            if kind == "look":
+                key = ("look", op["what"], op["units"])
+                where = "look/" + op["what"]
+                with qr.energy_units(op["units"]):
+                    if op["what"] == "rwa_data":
+                        return numpy.array(pool.ham.get_RWA_data()) if pool.ham.has_rwa else None
+                    if op["what"] == "rwa_skeleton":
+                        return numpy.array(pool.ham.get_RWA_skeleton()) if pool.ham.has_rwa else None
+                    return numpy.array(pool.ham.data)
             if kind == "heom":
                 d = op["depth"]
                 if d not in pool.hier:
